@@ -575,13 +575,19 @@ class C15(Base):
             self.helper.stop()
             self.helper = None
 
+    E3_SHARE = {"quick": 0.08, "thorough": 0.3}
+
     def plan(self, rng, tier, idx):
         nmax, rfmax = self.SIZES[tier]
         lo, hi = self.SLOTS[tier]
-        nslots = rng.randint(lo, hi if rng.random() < 0.2 else min(hi, 6))
+        e3 = rng.random() < self.E3_SHARE[tier]
+        nslots = rng.randint(lo, hi if (rng.random() < 0.2 and not e3)
+                             else min(hi, 6))
         slots = []
         pivot_n = rng.randint(2, min(nmax, 24))
         pivot_s = rng.randint(1, pivot_n)
+        if e3:
+            nmax, rfmax = min(nmax, 40), min(rfmax, 32)
         for _ in range(nslots):
             v = rng.choice(VARIANTS)
             cfg = draw_cfg(rng, v, nmax, rfmax)
@@ -595,6 +601,12 @@ class C15(Base):
                     cfg["p"]["r"], cfg["p"]["d"] = rng.choice(
                         ((0, s), (s, 0), (1, max(1, s - 1))))
             slots.append((cfg, draw_passes(rng, cfg, 2), "every"))
+        if e3:
+            # engine E3: the same tasks, pre-empted at line granularity
+            tasks = [[cfg, passes] for cfg, passes, _ in slots]
+            return ListDriver([["e3", rng.getrandbits(48), tasks,
+                                rng.choice((0.002, 0.005, 0.02)),
+                                rng.choice((0.05, 0.1, 0.3))]])
         calls = []
         for _ in range(rng.randint(0, 6)):
             fn = rng.choice(HELPERS)
@@ -614,6 +626,8 @@ class C15(Base):
     WORLD_KW = {"monitor_counters": False}
 
     def check(self, w):
+        if getattr(w, "e3_errors", None):
+            raise RuntimeError(f"HARNESS: E3 world failed: {w.e3_errors}")
         if self.helper is None:
             return
         memo = {}
@@ -651,6 +665,8 @@ class C15(Base):
                              "stream with observer reads differs from the "
                              "stream of the same history without them")
     def nontrivial(self, w):
+        if w.probes.get("e3_switches", 0) >= 2:
+            return True
         order = w.slot_order
         switches = sum(1 for a, b in zip(order, order[1:]) if a != b)
         return len({*order}) >= 2 and switches >= 2
@@ -662,9 +678,10 @@ class C15(Base):
             os.path.abspath(__file__))))
         cfgs = []
         for idx in range(n):
-            rng = rng_for(seed, self.ID, tier, idx * 11 + 5)
-            plan = self.plan(rng, tier, idx * 11 + 5)
-            cfg, passes, _ = plan.slots[0]
+            rng = rng_for(seed, self.ID + "/fresh", tier, idx)
+            nmax, rfmax = self.SIZES[tier]
+            cfg = draw_cfg(rng, rng.choice(VARIANTS), nmax, rfmax)
+            passes = draw_passes(rng, cfg, 2)
             cfgs.append([["new", 0, cfg, passes, "every"], ["drain", 0],
                          ["over", 0]])
         from ..campaign import fork_call
